@@ -11,6 +11,7 @@ package main
 
 import (
 	"encoding/json"
+	"encoding/xml"
 	"fmt"
 	"io/ioutil"
 	"math/rand"
@@ -181,6 +182,9 @@ func (w *world) ensureBaseline() bool {
 // ---- classification
 
 func family(c hcase, val string) string {
+	if c.Vector == "listing" {
+		return "upload-in-progress"
+	}
 	low := strings.ToLower(val)
 	for _, m := range c.More { // a batch is as hostile as its worst key
 		if strings.Contains(m, "..") {
@@ -282,6 +286,23 @@ func (w *world) materialise(c hcase) (request, bool) {
 	case "part-copy-src":
 		rq.Method, rq.Target = "PUT", obj("pending/b", "partNumber=7&uploadId="+w.idB)
 		rq.Header = []string{"X-Amz-Copy-Source", v}
+	case "list-v1", "list-v2":
+		// template = "<prefix>|<delimiter>": the hostile part is what the listing may reveal, not the request
+		pd := strings.SplitN(v, "|", 2)
+		q := []string{}
+		if c.Route == "list-v2" {
+			q = append(q, "list-type=2")
+		}
+		if pd[0] != "" {
+			q = append(q, "prefix="+lib.S3QueryEscape(pd[0]))
+		}
+		if len(pd) > 1 && pd[1] != "" {
+			q = append(q, "delimiter="+lib.S3QueryEscape(pd[1]))
+		}
+		rq.Method, rq.Target = "GET", "/"+B
+		if len(q) > 0 {
+			rq.Target += "?" + strings.Join(q, "&")
+		}
 	case "batch-delete":
 		var b strings.Builder
 		b.WriteString("<Delete>")
@@ -384,11 +405,40 @@ func (w *world) run(c hcase) {
 			}
 		}
 	}
+	for _, p := range removed {
+		if p == "/buckets/"+B { // the bucket's own entry lives in /buckets, not inside the bucket
+			report["bucket-dir-removed"] = append(report["bucket-dir-removed"], p)
+		}
+	}
+	if strings.HasPrefix(c.Route, "list-") && status == 200 {
+		var lr lib.S3ListResult
+		if xml.Unmarshal(body, &lr) == nil {
+			r.Count("listings_parsed", 1)
+			var shown []string
+			for _, k := range lr.Contents {
+				if strings.HasPrefix(k.Key, ".uploads") {
+					shown = append(shown, "key "+k.Key)
+				}
+			}
+			for _, cp := range lr.CommonPrefixes {
+				if strings.HasPrefix(cp.Prefix, ".uploads") {
+					shown = append(shown, "common prefix "+cp.Prefix)
+				}
+			}
+			if len(shown) > 0 {
+				violation(sig("uploads-listed"), detail("a bucket listing presents the internal upload area as ordinary bucket content", shown))
+			}
+		} else {
+			r.Count("listings_unparsable", 1)
+		}
+	}
 	for class, paths := range report {
 		sort.Strings(paths)
 		damaged = true
 		msg := "filer entries outside /buckets/" + B + "/ " + strings.TrimPrefix(class, "outside-")
-		if strings.HasPrefix(class, "uploads-") {
+		if class == "bucket-dir-removed" {
+			msg = "the bucket directory itself (an entry of /buckets) was removed by an object-level request"
+		} else if strings.HasPrefix(class, "uploads-") {
 			msg = "entries of the internal upload area " + strings.TrimPrefix(class, "uploads-") + " through an ordinary object route"
 		}
 		violation(sig(class), detail(msg, paths))
@@ -504,6 +554,127 @@ func trunc(l []string) []string {
 		return append(append([]string{}, l[:6]...), fmt.Sprintf("...(%d)", len(l)))
 	}
 	return l
+}
+
+// legitDeletes: ordinary (non-hostile) single and batch deletes that empty a bucket, in a
+// bucket that never had a multipart upload and in one with an upload in progress. Only
+// entries strictly inside the bucket (and outside its .uploads) may disappear; the bucket
+// directory itself and everything else must survive.
+func (w *world) legitDeletes() {
+	r := w.r
+	keys := []string{"k1", "dir/k2", "dir/sub/k3"}
+	for _, bk := range []struct {
+		name   string
+		upload bool
+	}{{"c29d", false}, {"c29e", true}} {
+		if resp, err := w.s3c.PutBucket(bk.name); err != nil || resp.Status != 200 {
+			r.Inconclusive(fmt.Sprintf("create bucket %s: %v", bk.name, err))
+			return
+		}
+		input := "empties-bucket-without-uploads"
+		if bk.upload {
+			if _, err := w.newUpload(bk.name, "pending/x", "LEGIT-PART"); err != nil {
+				r.Inconclusive("upload in " + bk.name + ": " + err.Error())
+				return
+			}
+			input = "empties-bucket-with-upload-in-progress"
+		}
+		root := "/buckets/" + bk.name
+		fill := func(ks []string) bool {
+			for _, k := range ks {
+				if resp, err := w.s3c.PutObject(bk.name, k, []byte("legit "+k)); err != nil || resp.Status != 200 {
+					r.Inconclusive("PUT " + bk.name + "/" + k + " failed")
+					return false
+				}
+			}
+			return true
+		}
+		step := func(route, name string, ks []string, do func() (int, error)) {
+			before := w.dump()
+			if before == nil {
+				return
+			}
+			r.Case(map[string]interface{}{"legit_delete": name, "bucket": bk.name, "keys": ks})
+			status, err := do()
+			after := w.dump()
+			if after == nil {
+				return
+			}
+			r.Eval(1)
+			r.Count("legit_delete_steps", 1)
+			created, removed, changed := lib.DiffDumps(before, after)
+			fmt.Printf("trace legit %s %s %s status=%d err=%v created=%q removed=%q changed=%q\n", bk.name, route, name, status, err, trunc(created), trunc(removed), trunc(changed))
+			det := func(msg string, paths []string) map[string]interface{} {
+				return map[string]interface{}{"msg": msg, "bucket": bk.name, "step": name, "keys": ks, "status": status, "paths": paths, "removed": removed, "created": created, "changed": changed}
+			}
+			sg := func(class string) lib.Sig {
+				return lib.Sig{"route": route, "vector": "legit-key", "class": class, "input": input}
+			}
+			var bad, internals []string
+			for _, p := range removed {
+				switch {
+				case p == root:
+					d := det("a delete of ordinary keys removed the bucket directory itself (DeleteEntry on /buckets)", []string{p})
+					lib.DebugDump("C29", sg("bucket-dir-removed"), d)
+					r.Violation(sg("bucket-dir-removed"), d)
+				case !strings.HasPrefix(p, root+"/"):
+					bad = append(bad, p)
+				case strings.HasPrefix(p, root+"/.uploads"):
+					internals = append(internals, p)
+				}
+			}
+			for _, p := range append(append([]string{}, created...), changed...) {
+				if p != root && !strings.HasPrefix(p, root+"/") {
+					bad = append(bad, p)
+				}
+			}
+			if len(bad) > 0 {
+				r.Violation(sg("outside-touched"), det("a delete of ordinary keys touched entries outside the bucket", bad))
+			}
+			if len(internals) > 0 {
+				r.Violation(sg("uploads-removed"), det("a delete of ordinary keys removed entries of the internal upload area", internals))
+			}
+			if _, ok := after[root]; ok && len(removed) > 0 {
+				r.Nontrivial("legit|" + bk.name + "|" + name)
+			}
+		}
+		batch := func(ks []string) func() (int, error) {
+			return func() (int, error) {
+				_, resp, err := w.s3c.DeleteObjects(bk.name, ks)
+				if resp != nil {
+					return resp.Status, err
+				}
+				return 0, err
+			}
+		}
+		if !fill(keys) {
+			return
+		}
+		step("batch-delete", "all keys in one batch", keys, batch(keys))
+		if !fill(keys) {
+			return
+		}
+		step("batch-delete", "first two keys (leaves one)", keys[:2], batch(keys[:2]))
+		step("batch-delete", "the last key", keys[2:], batch(keys[2:]))
+		if !fill(keys[:1]) {
+			return
+		}
+		step("batch-delete", "the only key of the bucket", keys[:1], batch(keys[:1]))
+		if !fill(keys) {
+			return
+		}
+		for i, k := range keys {
+			k := k
+			step("delete", fmt.Sprintf("single delete %d of %d", i+1, len(keys)), []string{k}, func() (int, error) {
+				resp, err := w.s3c.DeleteObject(bk.name, k)
+				if resp != nil {
+					return resp.Status, err
+				}
+				return 0, err
+			})
+		}
+	}
+	w.snap = nil
 }
 
 func short(rq request) request {
@@ -658,6 +829,12 @@ func buildCases(r *lib.Run) []hcase {
 	}
 	cs = append(cs, hcase{Route: "batch-delete", Vector: "batch-key", Pattern: "mixed-batch", Tmpl: "inb/obj2",
 		More: []string{"../{A}/dir/canary-a2.txt", ".uploads/{IDB}/0001.part", "../../topics/canary-topics.txt"}})
+	// listings of B while an upload is in progress (there always is one): the internal area must not show
+	for _, rt := range []string{"list-v1", "list-v2"} {
+		for _, pd := range []string{"|/", "|", ".|/", ".|", ".u|/", ".uploads|/"} {
+			cs = append(cs, hcase{Route: rt, Vector: "listing", Pattern: "prefix|delimiter=" + pd, Tmpl: pd})
+		}
+	}
 	for _, p := range formPatterns {
 		cs = append(cs, hcase{Route: "post-policy", Vector: "form-key", Pattern: p.name, Tmpl: p.tmpl})
 	}
@@ -785,6 +962,9 @@ func main() {
 		if r.Violations() > 300 {
 			break
 		}
+	}
+	if r.Replay == "" && os.Getenv("C29_ONLY") == "" || strings.Contains(os.Getenv("C29_ONLY"), "legit") {
+		w.legitDeletes()
 	}
 	// self-check of the observer: a legit PUT into B must show up in the diff
 	before := w.dump()
